@@ -434,51 +434,27 @@ func (p *Prog) resolveLocks(r *Roles) {
 		r.miss("SegReader in-use counter")
 	}
 
-	// HeadIndex next-offset atomic: atomic.Int64 field stored in the method that appends to HIItems.
-	for _, fn := range p.Funcs {
-		if recvNamed(fn) != r.HeadIndex || !srcFunc(fn) {
-			continue
-		}
-		appends := false
-		var stores []*types.Var
-		for _, b := range fn.Blocks {
-			for _, ins := range b.Instrs {
-				switch x := ins.(type) {
-				case *ssa.Store:
-					if fa, ok := x.Addr.(*ssa.FieldAddr); ok && fieldVarOfAddr(fa) == r.HIItems {
-						appends = true
-					}
-				case *ssa.Call:
-					if calleeName(x.Common()) == "(*sync/atomic.Int64).Store" {
-						if fa, ok := x.Call.Args[0].(*ssa.FieldAddr); ok {
-							stores = append(stores, fieldVarOfAddr(fa))
-						}
-					}
+	// HeadIndex next-offset atomic: the atomic.Int64 field of HeadIndex whose Load is what the
+	// API method Log.NextOffset returns (through any chain of module functions).
+	hs := structOf(r.HeadIndex)
+	for _, cand := range fieldsOfType(hs, isVal("sync/atomic", "Int64")) {
+		r.HINextOffset = cand
+		sum := p.nextOffsetSummary()
+		found := false
+		if no := r.ImplMethods["NextOffset"]; no != nil {
+			for _, rt := range returnsOf(no) {
+				if len(rt.Results) > 0 && p.isNextOffsetValue(returnOperand(rt, 0), sum) {
+					found = true
 				}
 			}
 		}
-		if appends {
-			// the next-offset atomic is the one whose stored value is "<item>.Offset + 1"
-			for _, b := range fn.Blocks {
-				for _, ins := range b.Instrs {
-					c, ok := ins.(*ssa.Call)
-					if !ok || calleeName(c.Common()) != "(*sync/atomic.Int64).Store" {
-						continue
-					}
-					if bo, ok := c.Call.Args[1].(*ssa.BinOp); ok && bo.Op == token.ADD {
-						if k, ok := constInt(bo.Y); ok && k == 1 {
-							if fa, ok := c.Call.Args[0].(*ssa.FieldAddr); ok {
-								r.HINextOffset = fieldVarOfAddr(fa)
-							}
-						}
-					}
-				}
-			}
+		if found {
+			break
 		}
-		_ = stores
+		r.HINextOffset = nil
 	}
 	if r.HINextOffset == nil {
-		r.miss("HeadIndex next-offset atomic")
+		r.miss("HeadIndex next-offset atomic (the atomic whose Load Log.NextOffset returns)")
 	}
 }
 
